@@ -221,7 +221,13 @@ pub fn history_steps(rng: &mut Rng, n: usize, with_touch: bool, exprs: &[usize])
                 let (n, v) = random_pref_switch(rng);
                 s.push(Step::Call(Op::SetPref(n, v)));
             }
-            7..=9 => s.push(Step::Call(Op::SetMathml(if rng.chance(0.9) { ExprRef::Pool(*rng.pick(exprs)) } else { ExprRef::Bad(rng.below(pools::INVALID_EXPRS.len())) }))),
+            7..=9 => s.push(Step::Call(Op::SetMathml(if rng.chance(0.25) {
+                ExprRef::Corpus(rng.below(pools::corpus().len()))
+            } else if rng.chance(0.9) {
+                ExprRef::Pool(*rng.pick(exprs))
+            } else {
+                ExprRef::Bad(rng.below(pools::INVALID_EXPRS.len()))
+            }))),
             10 | 11 => s.push(Step::Call(rng.pick(&[Op::Speech, Op::Braille(IdRef::Empty), Op::Overview, Op::Braille(IdRef::Nav), Op::NavBraille, Op::NavMathml]).clone())),
             12 | 13 => s.push(Step::Call(Op::Cmd(crate::props::c11::random_nav_command(rng)))),
             14 => s.push(Step::Call(Op::NodeFromPos(PosRef::Permille(rng.below(1000))))),
